@@ -38,6 +38,8 @@ const TALL: &str = "AX (AX (AX (AX (AX (AX (AX (AX (EF a))))))))";
 
 /// Run every plain string entry point on `s`; returns (entry, outcome, detail).
 fn plain_entries(s: &str, g: &SymbolicAsyncGraph, valid: &str) -> Vec<(&'static str, Out, String)> {
+    let tall = TALL.replace("EF a", &format!("EF {valid}"));
+    let tall = tall.as_str();
     let mut v = vec![];
     let mut push = |n: &'static str, r: (Out, String)| v.push((n, r.0, r.1));
     push("model_check_formula", classify(|| mc::model_check_formula(s, g)));
@@ -47,8 +49,8 @@ fn plain_entries(s: &str, g: &SymbolicAsyncGraph, valid: &str) -> Vec<(&'static 
     push("model_check_multiple_formulae[valid,s]", classify(|| mc::model_check_multiple_formulae(vec![valid, s], g)));
     push("model_check_multiple_formulae_dirty[s,valid]", classify(|| mc::model_check_multiple_formulae_dirty(vec![s, valid], g)));
     // lists in which the other (valid) formula is TALLER than `s` and needs no spare variable set
-    push("model_check_multiple_formulae[tall,s]", classify(|| mc::model_check_multiple_formulae(vec![TALL, s], g)));
-    push("model_check_multiple_formulae_dirty[s,tall]", classify(|| mc::model_check_multiple_formulae_dirty(vec![s, TALL], g)));
+    push("model_check_multiple_formulae[tall,s]", classify(|| mc::model_check_multiple_formulae(vec![tall, s], g)));
+    push("model_check_multiple_formulae_dirty[s,tall]", classify(|| mc::model_check_multiple_formulae_dirty(vec![s, tall], g)));
     push("model_check_formula_unsafe_ex", classify(|| mc::model_check_formula_unsafe_ex(s, g)));
     push("_model_check_formula", classify(|| mc::_model_check_formula(s, g, &mut cb)));
     push("_model_check_formula_dirty", classify(|| mc::_model_check_formula_dirty(s, g, &mut cb)));
@@ -58,6 +60,8 @@ fn plain_entries(s: &str, g: &SymbolicAsyncGraph, valid: &str) -> Vec<(&'static 
 }
 
 fn ext_entries(s: &str, g: &SymbolicAsyncGraph, ctx: &Ctx, valid: &str) -> Vec<(&'static str, Out, String)> {
+    let tall = TALL.replace("EF a", &format!("EF {valid}"));
+    let tall = tall.as_str();
     let mut v = vec![];
     let mut push = |n: &'static str, r: (Out, String)| v.push((n, r.0, r.1));
     push("model_check_extended_formula", classify(|| mc::model_check_extended_formula(s, g, ctx)));
@@ -66,8 +70,8 @@ fn ext_entries(s: &str, g: &SymbolicAsyncGraph, ctx: &Ctx, valid: &str) -> Vec<(
     push("model_check_multiple_extended_formulae_dirty", classify(|| mc::model_check_multiple_extended_formulae_dirty(vec![s], g, ctx)));
     push("model_check_multiple_extended_formulae[valid,s]", classify(|| mc::model_check_multiple_extended_formulae(vec![valid, s], g, ctx)));
     push("model_check_multiple_extended_formulae_dirty[s,valid]", classify(|| mc::model_check_multiple_extended_formulae_dirty(vec![s, valid], g, ctx)));
-    push("model_check_multiple_extended_formulae[tall,s]", classify(|| mc::model_check_multiple_extended_formulae(vec![TALL, s], g, ctx)));
-    push("model_check_multiple_extended_formulae_dirty[s,tall]", classify(|| mc::model_check_multiple_extended_formulae_dirty(vec![s, TALL], g, ctx)));
+    push("model_check_multiple_extended_formulae[tall,s]", classify(|| mc::model_check_multiple_extended_formulae(vec![tall, s], g, ctx)));
+    push("model_check_multiple_extended_formulae_dirty[s,tall]", classify(|| mc::model_check_multiple_extended_formulae_dirty(vec![s, tall], g, ctx)));
     push("_model_check_extended_formula", classify(|| mc::_model_check_extended_formula(s, g, ctx, &mut cb)));
     push("_model_check_extended_formula_dirty", classify(|| mc::_model_check_extended_formula_dirty(s, g, ctx, &mut cb)));
     push("_model_check_multiple_extended_formulae", classify(|| mc::_model_check_multiple_extended_formulae(vec![s], g, ctx, &mut cb)));
@@ -114,7 +118,7 @@ pub fn check_string(env: &Env, s: &str, ks: &[usize], labels: &[(String, Vec<u64
     for &k in ks {
         let g = &env.graphs[k];
         let want_plain = matches!(&plain_ref, Some((d, _, _)) if *d <= k);
-        for (name, out, detail) in plain_entries(s, g, "a") {
+        for (name, out, detail) in plain_entries(s, g, &env.props[0]) {
             let want = if name.contains("unsafe_ex") { want_plain } else { want_plain };
             match out {
                 Out::Panic => bad.push(format!("{name} (k={k}) panics: {detail}")),
@@ -125,7 +129,7 @@ pub fn check_string(env: &Env, s: &str, ks: &[usize], labels: &[(String, Vec<u64
         }
         let ctx = env.ctx_for(k, labels);
         let want_ext = matches!(&ext_ref, Some((d, w, dm)) if *d <= k && w.iter().all(|x| present.contains(&x)) && dm.iter().all(|x| present.contains(&x)));
-        for (name, out, detail) in ext_entries(s, g, &ctx, "a") {
+        for (name, out, detail) in ext_entries(s, g, &ctx, &env.props[0]) {
             match out {
                 Out::Panic => bad.push(format!("{name} (k={k}) panics: {detail}")),
                 Out::Ok if !want_ext => bad.push(format!("{name} (k={k}) returns a result although the input must be rejected (labels present: {present:?})")),
@@ -232,6 +236,16 @@ pub fn run(tier: &str) -> Result<Report, String> {
     }
     for len in 1..=k {
         run_strings(&mut rep, &env, &CHARS, len, "", &mixed, "char_strings");
+    }
+    // (a2) a network whose variable names interact with token boundaries: `EF_x` (operator look-alike + underscore)
+    //      and `_x` (the remainder of such a name): what is accepted depends on the names the network has
+    {
+        let b2 = Arc::new(bind("und2", &crate::nets::spec("EF_x -> _x; _x -| EF_x"), 0)?);
+        let env2 = Env::new(b2);
+        const T2: [&str; 14] = ["EF_x", "_x", "EF", "AG_x", "EX_x", "AG", "~", "&", "EU_x", "EU", "(", ")", "AX_", "x"];
+        for len in 1..=(if tier == "quick" { 3 } else { 4 }) {
+            run_strings(&mut rep, &env2, &T2, len, " ", &[], "underscore_names");
+        }
     }
     // (b) valid extended formulae x every subset of the required labels x label families
     let names = Names::user(&[b.spec.vars[0].clone(), b.spec.vars[1].clone()]);
@@ -414,7 +428,7 @@ pub fn run(tier: &str) -> Result<Report, String> {
     rep.sample(json!({"input": "!{x}: @{y}: a", "expected": "Err from every entry point (free jump target), for every k"}));
     rep.sample(json!({"input": "3{y} in %d%: ~ {y}", "labels_present": ["p"], "expected": "Err (domain d has no context set)"}));
     rep.sample(json!({"input": "3{y} in %d%: ~ {y}", "labels_present": ["p", "d"], "k": 0, "expected": "Err (needs 1 spare variable set)"}));
-    rep.rule = format!("(a) every sequence of 1..{t} tokens over {TOKENS:?} and every string of 1..{k} symbols over {CHARS:?} through all 25 string entry points (plain, dirty, multiple, extended, unsafe_ex, callback variants, lists [valid,s] / [s,valid] with a short and with a tall valid formula) on graphs with k=0,2 (k=0..3 when the grammar derives the string) spare variable sets; (b) every closed extended formula with <= {m} nodes x every subset of its required labels (sets: mixed / empty / full / colour-disjoint families) x k in {{depth-1, depth, 3}}; (b2) every tree with at most 5 (thorough 7) nodes over the binder-focused alphabet {{a, x, y, AX, &, !, 3, V, @}} printed and given to all 25 entry points (ill-scoped: Err; well-scoped: Ok when k suffices); (c) {} deep / long inputs (nesting 10 and 40; long names of 2-, 3- and 4-byte characters at every byte alignment). Oracle: Ok iff reference parser accepts, scope rules hold, all labels present and k >= nesting depth; Err otherwise; a panic is always a violation. distinct_nontrivial = number of enumerated strings the grammar derives", deep.len());
+    rep.rule = format!("(a) every sequence of 1..{t} tokens over {TOKENS:?} and every string of 1..{k} symbols over {CHARS:?} through all 25 string entry points (plain, dirty, multiple, extended, unsafe_ex, callback variants, lists [valid,s] / [s,valid] with a short and with a tall valid formula) on graphs with k=0,2 (k=0..3 when the grammar derives the string) spare variable sets; (a2) every sequence of <= 3 (4) tokens over {{EF_x, _x, EF, AG_x, EX_x, AG, ~, &, EU_x, EU, (, ), AX_, x}} on a network with the variables EF_x and _x; (b) every closed extended formula with <= {m} nodes x every subset of its required labels (sets: mixed / empty / full / colour-disjoint families) x k in {{depth-1, depth, 3}}; (b2) every tree with at most 5 (thorough 7) nodes over the binder-focused alphabet {{a, x, y, AX, &, !, 3, V, @}} printed and given to all 25 entry points (ill-scoped: Err; well-scoped: Ok when k suffices); (c) {} deep / long inputs (nesting 10 and 40; long names of 2-, 3- and 4-byte characters at every byte alignment). Oracle: Ok iff reference parser accepts, scope rules hold, all labels present and k >= nesting depth; Err otherwise; a panic is always a violation. distinct_nontrivial = number of enumerated strings the grammar derives", deep.len());
     rep.assumptions.push("context sets satisfy the documented precondition (inside the unit set, independent of auxiliary variables)".into());
     Ok(rep)
 }
